@@ -118,8 +118,11 @@ def gen_op(rng, name, n_inputs=None, input_names=None, funcs=None, hostile=True,
 def gen_model(rng, max_nodes=5, depth=None, funcs=None, hostile=True, overrides=True, linear=False, clones=False, min_nodes=1):
     n_ops = rng.randint(1, 4)
     ops = {}
+    # operator names: prefix-related names (op / op_b / op1 / op10) are deliberately frequent
+    name_pool = ["op", "op_b", "op1", "op10", "op1_slow", "li", "li_op", "in_edge_9", "op0", "op2", "op3"]
+    rng.shuffle(name_pool)
     for i in range(n_ops):
-        ops[f"O{i}"] = gen_op(rng, f"op{i}" if rng.random() < 0.8 else rng.choice(["op", "li_op", "in_edge_9"]) + str(i), funcs=funcs, hostile=hostile, linear=linear)
+        ops[f"O{i}"] = gen_op(rng, name_pool[i] if hostile else f"op{i}", funcs=funcs, hostile=hostile, linear=linear)
     # node templates: 1-3 operators, with in-node chaining: a later operator gets an input named like an earlier operator's output
     node_templates = {}
     n_nt = rng.randint(1, 3)
